@@ -35,7 +35,12 @@ RULE = ("kvarn::handle_cache in process (component pipex.run, harness/src/c04x.r
         "lifetime must not restart it; every request timed by the harness: a "
         "scenario whose request started or ended more than `slack` late is run again (3 attempts) and then counted as not executed (never "
         "a violation); clears of the page / host / the page under its redirected URI / a page with BOTH its keys occupied (path?query and path) on "
-        "each spelling; (D) If-Modified-Since with the scenario start aligned "
+        "each spelling; (C') the clears as their caller names the host (component pipex.rund, harness c04x.rs ops (L (N 1) target designation) / (L (N 2) (L [filter])), "
+        "model Model/CacheClear.v over C15's collection model, specification component pipex.rund_spec): hosts named localhost / a.test / default, "
+        "inserted or made the default host, clear_page by own name, \"\", \"default\", an unknown name, the name in upper case, the name with a trailing dot; "
+        "clear_response_caches with no filter / own name / another name / \"\" / \"default\"; a host without response cache; random histories of "
+        "requests and designated clears against a reference reading in Python (which requests are computed, what every clear answers); "
+        "(D) If-Modified-Since with the scenario start aligned "
         "to xx.3 s wall clock; (E) kvarn_utils::parse::CacheControl called directly (cc.parse) on bounded-exhaustive and random header "
         "strings, compared with the byte-level model and an independent reference parser in Python. "
         "distinct_nontrivial = distinct scenarios whose model run contains a hit or a 304")
@@ -47,12 +52,17 @@ ASSUMPTIONS = [
     "If-Modified-Since dates are generated relative to the aligned scenario start; the `time` crate's HTTP-date parser is abstracted to its result",
     "ServerCachePreference::MaxAge(d) ignores d (observation, outside the property's wording)",
     "sequential histories; the second lookup inside handle_vary_missing is collapsed (interleavings are C05's subject)",
+    "the collection of the pipeline fixture holds ONE host (inserted or default): which host a clear reaches among several (alternative names, "
+    "replaced hosts) is C15's subject (hosts.pipe; clear_page_target_eq / clear_all_targets_eq) — here the designation decides between this host and none",
+    "clear_page(\"\" / \"default\", ..) answers found = false for a default host WITHOUT response cache while clear_page(<its name>, ..) answers "
+    "found = true (observation, modelled as is; nothing is stored on such a host)",
     "kvarn-cache-control: N<unit> with N*unit >= 2^32 panics in a build with overflow checks (C02 known class kvarn-cache-control-overflow); "
     "the pipeline generators stay below, the direct component cc.parse compares the panic outcome too",
 ]
 TRUSTED = ["modelled (Model/CacheX.v): src/lib.rs handle_cache + handle_cache_helpers {get_response's key, get_cache, maybe_cache, handle_vary_missing}, "
            "src/comprash.rs UriKey/PathQuery/MokaCache::{get_cache_item,insert,insert_cache_item}/server_cache_lifetime/ServerCachePreference::cache, "
-           "src/host.rs clear_page/clear_response_caches/status filter, extensions.rs uri_redirect_target; utils/src/parse.rs CacheControl::"
+           "src/host.rs clear_page (both branches: \"\"/\"default\" -> get_default, a name -> get_host) / clear_response_caches (with and without "
+           "filter) / status filter, over the collection CollectionBuilder::{insert,default} builds (Model/CacheClear.v on Model/Hosts.v), extensions.rs uri_redirect_target; utils/src/parse.rs CacheControl::"
            "{from_cache_control, from_kvarn_cache_control, from_headers, store, as_freshness} byte for byte (Model/CacheControl.v); handlers, vary rules, "
            "override Prime and status filters are the fixture menu (harness/src/c00pipe.rs + c04x.rs = Model/Fixture.v + CacheX.v)"]
 LEVEL_TEXT = ("Coq theorems over the full cache model (streams, body size as a number, the host's status filter, override URIs, vary variants) for ALL "
@@ -62,7 +72,15 @@ LEVEL_TEXT = ("Coq theorems over the full cache model (streams, body size as a n
               "request — with or without If-Modified-Since — of every history [uncacheable_always_recomputed]; a variant found by a lookup was stored at most its OWN lifetime ago, also among "
               "longer-lived variants of the same page [never_served_past_own_lifetime]; max-age=N alone or among other directives and kvarn-cache-control "
               "N<unit> for every N, unit give N(*unit) seconds [lifetime_*]; a clear of the page (as given or as the default redirect rewrites it) or of "
-              "the host makes the next request recompute; misses / non-GET / unsafe requests always recompute; after a response was stored, every history "
+              "the host makes the next request recompute — with the host named as the caller of Collection::clear_page / clear_response_caches names it: the "
+              "designation reaches the host exactly when it is \"\"/\"default\" and the host is the default host or it is the host's name "
+              "[clear_page_designation_exact], the filter exactly when absent or the host's name [clear_all_filter_exact]; a clear that reaches the host "
+              "answers (found, cleared iff a key was occupied) and the next request is recomputed in every state [cleared_page_by_designation_is_recomputed, "
+              "clear_reports_what_it_cleared, cleared_host_by_filter_is_recomputed]; a clear that names another host changes nothing "
+              "[clear_by_other_name_is_noop, clear_all_by_other_filter_is_noop] and such clears — of the very page too — leave it computed once "
+              "[computed_once_designated_history]; every designated history leaves the state of its erased plain history, so all theorems over all plain "
+              "histories hold for designated ones [designated_history_erases]; the model component compared with the code is its specification run on "
+              "every input and extends pipex.run [designated_run_meets_spec, designated_own_name_is_plain]; misses / non-GET / unsafe requests always recompute; after a response was stored, every history "
               "of other requests, waits and clears of other keys leaves the same request answered without recomputation until the deadline "
               "[computed_once_history]; 304 iff a usable entry exists, holds the variant the request selects and date >= stored second (corner case spelled out). Four "
               "defects of the code before its repair are proved as witnesses on the faithful old model (vary_push_admission_refuted, "
